@@ -84,8 +84,9 @@ def validate_cvxpy(wrapper, rec, rng):
             got = float(np.asarray(lhs).ravel()[0]) - float(np.asarray(rhs).ravel()[0])
             want = canon.expr_value(o.expression, Gv, Fv, idx)
             n_eval += 1
-            mag = 1.0 + sum(abs(float(v)) for v in o.expression.decomposition_dict.values()) if not o.expression.get_is_leaf() else 2.0
-            if abs(got - want) > 1e-9 * mag * (1 + n):
+            # relative to the size of the constraint's own terms (a constraint written in units of 1e-9 is still a constraint)
+            mag = sum(abs(float(v)) for v in o.expression.decomposition_dict.values()) if not o.expression.get_is_leaf() else 1.0
+            if abs(got - want) > 1e-9 * mag * (1 + n) * (1.0 + float(np.max(np.abs(Gv), initial=0.0)) + float(np.max(np.abs(Fv), initial=0.0))) + 1e-300:
                 F("cvxpy_constraint_wrong_denotation", "emitted cvxpy constraint evaluates to %.12g, symbolic expression to %.12g" % (got, want))
         else:
             size = o.shape[0]
@@ -355,6 +356,13 @@ def resolve_variant(machine, rng, bd, acc):
 
 
 # ---- (3) translators ---------------------------------------------------------------------------------------
+def _absmass(e):
+    """sum of the absolute raw coefficients of an expression (what its entries are sums of)"""
+    if e.get_is_leaf():
+        return 1.0
+    return float(sum(abs(float(v)) for v in e.decomposition_dict.values()))
+
+
 def translator_unit(rng, n_calls, acc):
     from PEPit import PEP, Point, Expression
     from PEPit.tools.expressions_to_matrices import expression_to_matrices, expression_to_sparse_matrices
@@ -377,7 +385,7 @@ def translator_unit(rng, n_calls, acc):
             else:
                 e = None
                 for _t in range(rng.randint(1, 5)):
-                    c = rng.choice([1, -1, 0.5, 2.0, -3, 7, 0.25])
+                    c = rng.choice([1, -1, 0.5, 2.0, -3, 7, 0.25, 1e-9, -5e-10, 1e-12, 1e9])
                     p, q = rng.choice(pts), rng.choice(pts)
                     if shape == "mirrored":
                         t = c * (p * q) + rng.choice([1, -1, 5]) * (q * p)
@@ -400,8 +408,10 @@ def translator_unit(rng, n_calls, acc):
             acc.signatures.add("translator|" + repr(_bucket(e)) + "|" + shape)
             try:
                 Gw, Fw, cons = expression_to_matrices(e)
-                ok = np.allclose(Gw, A, atol=1e-12) and np.allclose(Fw, a, atol=1e-12) and abs(cons - alpha) < 1e-12 \
-                    and np.allclose(Gw, Gw.T)
+                # entry by entry, relative to the entry itself (a weight of 1e-12 is a weight), plus the rounding of what cancels in it
+                ca = 1e-13 * _absmass(e)
+                ok = np.allclose(Gw, A, rtol=1e-10, atol=ca) and np.allclose(Fw, a, rtol=1e-10, atol=ca) and \
+                    abs(cons - alpha) <= 1e-10 * abs(alpha) + ca and np.allclose(Gw, Gw.T, rtol=0, atol=0)
                 if not ok:
                     viol.append({"key": "dense_translation_wrong", "what": "expression_to_matrices output differs from the symbolic "
                                  "expression (shape %s): Gram diff %.3e" % (shape, float(np.max(np.abs(Gw - A))) if A.size else 0.0)})
@@ -422,7 +432,7 @@ def translator_unit(rng, n_calls, acc):
                     viol.append({"key": "sparse_translation_not_lower_triangular", "what": "sparse output has an upper-triangular index"})
                 if dup:
                     viol.append({"key": "sparse_translation_duplicate_entry", "what": "sparse output lists an entry twice (shape %s)" % shape})
-                if not (np.allclose(S, A, atol=1e-12) and np.allclose(s, a, atol=1e-12) and abs(al - alpha) < 1e-12):
+                if not (np.allclose(S, A, rtol=1e-10, atol=ca) and np.allclose(s, a, rtol=1e-10, atol=ca) and abs(al - alpha) <= 1e-10 * abs(alpha) + ca):
                     viol.append({"key": "sparse_translation_wrong", "what": "expression_to_sparse_matrices output (as a symmetric "
                                  "matrix) differs from the symbolic expression (shape %s): diff %.3e"
                                  % (shape, float(np.max(np.abs(S - A))) if A.size else 0.0)})
